@@ -357,22 +357,10 @@ def run(repo, rep, tier):
         if hf is None:
             raise AnalysisError('%s vanished' % h)
         r3.functions.add(hf.fq)
-        ok = False
-        body = hf.body
-        # the variable is identified by its role: the one the helper returns
-        rv = norm(body[-1].value) if body and \
-            isinstance(body[-1], ast.Return) and \
-            isinstance(body[-1].value, ast.Name) else None
-        for i, s in enumerate(body):
-            if rv and isinstance(s, ast.If) and \
-                    norm(s.test) == '%s is None' % rv \
-                    and any(isinstance(x, ast.Assign) and
-                            norm(x) == '%s = self.default_namespace' % rv
-                            for x in s.body):
-                rest = body[i + 1:]
-                if rest and isinstance(rest[-1], ast.Return) and \
-                        all(not isinstance(x, ast.Assign) for x in rest[:-1]):
-                    ok = True
+        # the helper ends in the default fallback: on the way out the
+        # default is assigned / returned where the namespace is known to be
+        # None (any statement form; judged like C04.R16)
+        ok = _helper_falls_back_on_none(hf)
         r3.ob(ok, h + ':default')
         if not ok:
             rep.finding(r3, hf.qualname, 'if namespace is None: namespace = '
@@ -792,6 +780,50 @@ def run(repo, rep, tier):
     _r16_default_only_when_omitted(repo, rep, conn)
 
 
+def _helper_falls_back_on_none(hf):
+    from ..cfg import stmt_facts
+
+    def is_default(e):
+        return isinstance(e, ast.Attribute) and \
+            e.attr == 'default_namespace' and \
+            isinstance(e.value, ast.Name) and e.value.id == 'self'
+
+    def none_fact(t, pol, who=None):
+        if isinstance(t, ast.Compare) and len(t.ops) == 1 and \
+                isinstance(t.comparators[0], ast.Constant) and \
+                t.comparators[0].value is None and \
+                (who is None or norm(t.left) == who):
+            return (isinstance(t.ops[0], ast.Is) and pol) or \
+                (isinstance(t.ops[0], ast.IsNot) and not pol)
+        return False
+    sf = stmt_facts(hf.node)
+    good = 0
+    for st in walk_no_nested(hf.node):
+        if isinstance(st, ast.Assign) and len(st.targets) == 1:
+            v, who = st.value, norm(st.targets[0])
+        elif isinstance(st, ast.Return) and st.value is not None:
+            v, who = st.value, None
+        else:
+            continue
+        if is_default(v):
+            facts = sf.get(st, ((), ()))[0]
+            if any(none_fact(t, pol, who) for t, pol in facts):
+                good += 1
+            else:
+                return False
+        elif isinstance(v, ast.IfExp) and \
+                (is_default(v.body) or is_default(v.orelse)):
+            other = v.orelse if is_default(v.body) else v.body
+            if none_fact(v.test, is_default(v.body), norm(other)):
+                good += 1
+            else:
+                return False
+        elif isinstance(v, ast.BoolOp) and any(is_default(x)
+                                               for x in v.values):
+            return False
+    return good > 0
+
+
 def _r16_default_only_when_omitted(repo, rep, conn):
     """C04.R16: on the operation path the connection default replaces a
     namespace only where none was given (`is None`).  An empty namespace
@@ -825,6 +857,41 @@ def _r16_default_only_when_omitted(repo, rep, conn):
     for f in funcs:
         sf = None
         for st in walk_no_nested(f.node):
+            if isinstance(st, ast.Return) and st.value is not None and \
+                    f.name not in ('default_namespace',):
+                # `return self.default_namespace` as the fallback of a
+                # helper: some value is known to be None there
+                v = st.value
+                verdict = None
+                if is_default(v):
+                    if sf is None:
+                        sf = stmt_facts(f.node)
+                    facts = sf.get(st, ((), ()))[0]
+                    verdict = any(
+                        isinstance(t, ast.Compare) and
+                        none_test(t, pol, norm(t.left)) for t, pol in facts)
+                elif isinstance(v, ast.BoolOp) and \
+                        any(is_default(x) for x in v.values):
+                    verdict = False
+                elif isinstance(v, ast.IfExp) and \
+                        (is_default(v.body) or is_default(v.orelse)):
+                    other = v.orelse if is_default(v.body) else v.body
+                    verdict = none_test(v.test, is_default(v.body),
+                                        norm(other))
+                if verdict is None:
+                    continue
+                r16.sites += 1
+                r16.functions.add(f.fq)
+                r16.ob(verdict, '%s|%s' % (f.qualname, norm(st, 70)))
+                if not verdict:
+                    rep.finding(r16, f.qualname, norm(st, 80),
+                                'default-for-given-namespace', f.file,
+                                st.lineno,
+                                'the connection default namespace is '
+                                'returned where no namespace is known to be '
+                                'None: an empty namespace supplied by the '
+                                'caller is replaced by the default')
+                continue
             if not (isinstance(st, ast.Assign) and len(st.targets) == 1):
                 continue
             tgt = norm(st.targets[0])
